@@ -77,9 +77,20 @@ def rule_end_anchor(ctx, rep: Report, rid="V1"):
     return root
 
 
+def _ignore_ok(g, node) -> bool:
+    final = {n.uid for n in g.reachable(node) if n.kind != "Comment"}
+    for e in g.events:
+        if e.kind == "ignore" and e.node.uid == node.uid and e.other.kind == "Comment" \
+                and e.other.attrs.get("what") in ("cppStyleComment", "cpp_style_comment") \
+                and not e.conditional and final <= e.reach:
+            return True
+    return False
+
+
 def rule_single_entry(ctx, rep: Report, rid="V1", min_sites=3):
-    """Every parse call in gtwrap/scripts is Module.parseString (static) or the one inside it."""
-    prog = ctx.prog
+    """Every parse call in gtwrap/scripts goes through Module.parseString, or is made on a
+    grammar element that is itself end-anchored and carries the comment skipper."""
+    prog, g = ctx.prog, ctx.grammar
     n = 0
     for mi in prog.modules.values():
         for c in ast.walk(mi.tree):
@@ -91,15 +102,37 @@ def rule_single_entry(ctx, rep: Report, rid="V1", min_sites=3):
             fn = enclosing(c, (ast.FunctionDef, ast.AsyncFunctionDef))
             cls = enclosing(c, ast.ClassDef)
             where = f"{cls.name + '.' if cls else ''}{fn.name if fn else '<module>'}"
+            key = f"parse-call:{where}:{recv}.{c.func.attr}"
+            loc = f"{mi.rel}:{c.lineno}"
             inside_entry = cls is not None and cls.name == "Module" and fn is not None \
                 and fn.name == "parseString"
-            is_entry_call = recv.split(".")[-1] == "Module" and c.func.attr == "parseString"
-            ok = inside_entry or is_entry_call
-            rep.add(rid, f"parse-call:{where}:{recv}.{c.func.attr}", ok,
-                    "trees must be obtained through Module.parseString only (anchored root with the "
-                    "comment-skipper installed); a parse call on a sub-rule is neither anchored nor "
-                    "guaranteed to skip comments",
-                    f"{mi.rel}:{c.lineno}", nontrivial=True)
+            if inside_entry:
+                rep.add(rid, key, True, "the entry point itself (anchoring and comment skipping of its "
+                        "root are decided separately)", loc)
+                continue
+            rc = prog.resolve_class(c.func.value, mi)
+            if rc is not None and rc.name == "Module" and c.func.attr in rc.methods:
+                rep.add(rid, key, True, "goes through Module.parseString", loc)
+                continue
+            # a grammar element?  Class[.Nested].attr, optionally behind a module alias
+            parts = recv.split(".")
+            node = None
+            for i in range(len(parts) - 1):
+                try:
+                    node = g.class_rule(".".join(parts[i:-1]), parts[-1])
+                    break
+                except AnalysisError:
+                    continue
+            if node is None:
+                raise AnalysisError(f"{loc}: parse call on {recv!r} cannot be resolved to a grammar "
+                                    f"element or to Module.parseString")
+            parse_all = const_kw(c, ("parseAll", "parse_all")) is True
+            anchored = ends_with_string_end(node) or parse_all
+            skip = _ignore_ok(g, node)
+            rep.add(rid, key, anchored and skip,
+                    f"parse call on {node.label}: " +
+                    ("" if anchored else "not end-anchored (a prefix of the input is accepted); ") +
+                    ("" if skip else "no comment skipper installed on this element"), loc)
     rep.units["parse_call_sites"] = n
     have = sum(1 for o in rep.obs if o.rule == rid and o.construct.startswith("parse-call:"))
     if have < min_sites:
